@@ -3,6 +3,8 @@
 package index
 
 import (
+	"github.com/sourcegraph/zoekt"
+	"github.com/sourcegraph/zoekt/query"
 	verifrt "github.com/sourcegraph/zoekt/zz_verifrt"
 )
 
@@ -297,5 +299,76 @@ func H_C01_docIterNoSkip() {
 	// reference: document containing the first posting
 	want := refNextFileIndex(ps[0], 0, ends)
 	verifrt.Assert(nd == want, "nextDoc = document containing the first remaining posting")
+	verifrt.Reach("returned")
+}
+
+// andLineMatchTree: "foo.*bar"-style conjunctions must be found iff some line holds a candidate of
+// every literal. Candidates (start offsets of literal occurrences, per child sorted and distinct),
+// newline positions and file size are symbolic; candidates never start on a newline byte (a
+// single-line literal cannot). The children are marked as already matched (known) so that the
+// same-line logic itself is what runs.
+func H_C01_andLine() {
+	size := verifrt.U32("size")
+	verifrt.Assume(size >= 1 && size <= 16)
+	nnl := verifrt.Concretize(verifrt.IntRange("newlines", 0, verifrt.Param("nl", 2, 3)))
+	nls := make([]uint32, nnl)
+	for i := range nls {
+		nls[i] = verifrt.U32("nl")
+		verifrt.Assume(nls[i] < size)
+		if i > 0 {
+			verifrt.Assume(nls[i-1] < nls[i])
+		}
+	}
+	nch := verifrt.Concretize(verifrt.IntRange("children", 2, verifrt.Param("children", 2, 3)))
+	t := &andLineMatchTree{}
+	var offs [][]uint32
+	for c := 0; c < nch; c++ {
+		k := verifrt.Concretize(verifrt.IntRange("cands", 1, 2))
+		sm := &substrMatchTree{query: &query.Substring{Pattern: "lit", Content: true}}
+		var os []uint32
+		for i := 0; i < k; i++ {
+			o := verifrt.U32("off")
+			verifrt.Assume(o < size)
+			if i > 0 {
+				verifrt.Assume(os[i-1] < o)
+			}
+			for _, nl := range nls {
+				verifrt.Assume(nl != o)
+			}
+			os = append(os, o)
+			sm.current = append(sm.current, &candidateMatch{byteOffset: o, runeOffset: o, byteMatchSz: 1})
+		}
+		offs = append(offs, os)
+		t.children = append(t.children, sm)
+	}
+	cp := &contentProvider{id: &indexData{metaData: zoekt.IndexMetadata{PlainASCII: true}}, stats: &zoekt.Stats{}, _nl: nls, fileSize: size}
+	if nnl == 0 {
+		cp._nl = []uint32{}
+	}
+	known := map[matchTree]bool{&t.andMatchTree: true}
+	got := t.matches(cp, costMax, known)
+	// reference: line of an offset = number of newline bytes before it
+	lineOf := func(o uint32) int {
+		n := 0
+		for _, nl := range nls {
+			n += verifrt.B2I(nl < o)
+		}
+		return n
+	}
+	want := false
+	for line := 0; line <= nnl; line++ {
+		all := true
+		for c := range offs {
+			has := false
+			for _, o := range offs[c] {
+				has = verifrt.Or(has, lineOf(o) == line)
+			}
+			all = verifrt.And(all, has)
+		}
+		want = verifrt.Or(want, all)
+	}
+	verifrt.Observe("got", int(got))
+	verifrt.Assert((got == matchesFound) == want, "a same-line conjunction matches iff some line holds a candidate of every literal")
+	verifrt.Assert(got == matchesFound || got == matchesNone, "the same-line check decides")
 	verifrt.Reach("returned")
 }
